@@ -25,7 +25,7 @@ func init() {
 			"without reading a field cannot keep the highest nonce / add the delta / let later updates win / append the new transfers). R2 also: no loop folds the bytes of its parameter into a fixed-width word without a length bound. R3 also: a module object found in the result's own collections (possibly adopted by pointer from an account merged in earlier) is never rewritten in place. R7: the merged transfer list is the own list followed by the tail of the other from the own length on. Does NOT decide: the merge laws as equations, " +
 			"exhaustive byte-pair round trips as executions, the classification of concrete addresses.",
 		Trusted: []string{"A-len"},
-		Rules:   []func(*Ctx){c20r1, c20r2, c20r3, c20r4, c20r5, c20r6, c20r7},
+		Rules:   []func(*Ctx){c20r1, c20r2, c20r3, c20r4, c20r5, c20r6, c20r7, c20r8},
 	})
 }
 
@@ -86,6 +86,25 @@ func toBytesTriples(p *Prog, fn *ssa.Function) ([]flagTriple, int64, string) {
 					}
 					il := e.LE(ia.Index)
 					if !il.isConst() {
+						// rows of a literal table iterated in a loop: `for _, f := range flags { if f.isSet { b[f.index] |= f.mask } }`
+						if rows := tableFlagRows(e, x, ia, b, recv); rows != nil {
+							for _, t := range rows {
+								out = append(out, t)
+								tops = append(tops, top)
+								over = append(over, false)
+							}
+							continue
+						}
+						if depth > 0 && top != nil {
+							if rows := tableFlagRowsAt(e, x, ia, p.Env(fn), top.Block(), recv); rows != nil {
+								for _, t := range rows {
+									out = append(out, t)
+									tops = append(tops, top)
+									over = append(over, false)
+								}
+								continue
+							}
+						}
 						why = "non-constant byte index at " + p.InstrPos(x)
 						return
 					}
@@ -143,6 +162,67 @@ func toBytesTriples(p *Prog, fn *ssa.Function) ([]flagTriple, int64, string) {
 		}
 	}
 	return out, mk, ""
+}
+
+// tableFlagRows: the store `b[row.index] |= row.mask` executed under `row.isSet`, where row is the element of a literal table
+// selected by the loop index: one (index, mask, field) triple per row — the index and the mask are the row's constants, the
+// field is the receiver field whose value the row's condition holds.
+func tableFlagRows(e *Env, st *ssa.Store, ia *ssa.IndexAddr, b *ssa.BasicBlock, recv string) []flagTriple {
+	return tableFlagRowsAt(e, st, ia, e, b, recv)
+}
+
+func tableFlagRowsAt(e *Env, st *ssa.Store, ia *ssa.IndexAddr, ge *Env, gb *ssa.BasicBlock, recv string) []flagTriple {
+	bo, ok := st.Val.(*ssa.BinOp)
+	if !ok || bo.Op != token.OR {
+		return nil
+	}
+	idxAlts := e.tableFieldAlts(ia.Index)
+	maskAlts := e.tableFieldAlts(bo.Y)
+	if maskAlts == nil {
+		maskAlts = e.tableFieldAlts(bo.X)
+	}
+	if idxAlts == nil || len(idxAlts) != len(maskAlts) {
+		return nil
+	}
+	// the condition under which the block executes: the true side of an If that dominates it
+	var condAlts []structAlt
+	for d := gb; d != nil && condAlts == nil; d = d.Idom() {
+		id := d.Idom()
+		if id == nil {
+			break
+		}
+		iff, ok := id.Instrs[len(id.Instrs)-1].(*ssa.If)
+		if !ok || id.Succs[0] != d || len(d.Preds) != 1 {
+			continue
+		}
+		if alts := ge.tableFieldAlts(iff.Cond); len(alts) == len(idxAlts) {
+			condAlts = alts
+		}
+	}
+	if condAlts == nil {
+		return nil
+	}
+	var out []flagTriple
+	for k := range idxAlts {
+		i, ok1 := constInt(idxAlts[k].val)
+		m, ok2 := constInt(maskAlts[k].val)
+		if !ok1 {
+			if l := idxAlts[k].env.LE(idxAlts[k].val); l.isConst() {
+				i, ok1 = l.k, true
+			}
+		}
+		if !ok2 {
+			if l := maskAlts[k].env.LE(maskAlts[k].val); l.isConst() {
+				m, ok2 = l.k, true
+			}
+		}
+		ft := condAlts[k].env.Term(condAlts[k].val)
+		if !ok1 || !ok2 || !strings.HasPrefix(ft, "*"+recv+".") {
+			return nil
+		}
+		out = append(out, flagTriple{i, m, strings.TrimPrefix(ft, "*"+recv+".")})
+	}
+	return out
 }
 
 // fromBytesTriples: F: (b[i] & M) != 0 ; plus the tested length and whether the other-length return is the zero value
